@@ -2,6 +2,7 @@
 use crate::common::*;
 use crate::driver::{self, CheckSpec};
 use crate::e1;
+use crate::e2;
 
 const REAL: &[&str] = &[
     "fidget-core (context, compiler, VM evaluators, shape wrappers, render handle)",
@@ -68,6 +69,37 @@ pub fn all() -> Vec<CheckSpec> {
                 "item-granular interleaving plus exact cancel placement covers every distinguishable schedule because tasks share only immutable data and read the cancel flag only at hook points (DESIGN 3.2 S1/S2)",
                 "preemption inside one native JIT call is not simulated",
                 "ThreadPool::Custom (rayon install) is not on the simulated path",
+            ],
+            real_components: REAL,
+            stub_components: STUB,
+            absent_faults: ABSENT,
+        },
+        CheckSpec {
+            prop: "C10",
+            engine: "E2-reuse-history",
+            runs_quick: 20_000,
+            runs_thorough: 1_500_000,
+            run: e2::run_c10,
+            rule: "one run = one seeded history (10-60 operations, 1-3 logical workers, 2-5 random multi-output functions over all opcodes, one backend of VM<3>/VM<8>/VM<255>/JIT) of {build, point/interval/float-slice/grad-slice evaluation with the worker's kept evaluator and a tape built into fresh or recycled storage, simplify with kept workspace and recycled function storage, cross-budget simplify, recycle, clone handle, hand storage to another worker, re-evaluate a tape held across other operations, RenderHandle episode}; after every operation the result is compared with the same call on fresh objects. distinct_nontrivial = number of distinct history signatures (hash of the whole operation/provenance/result log) among runs in which at least one reuse fault kind fired",
+            assumptions: &[
+                "the fresh-object twin is the reference model: a defect that is independent of history is out of scope here (it belongs to C01/C02/C20)",
+                "functions are drawn by the random DAG generator, not all programs",
+                "logical workers run on one OS thread: cross-thread sharing is C09",
+            ],
+            real_components: REAL,
+            stub_components: STUB,
+            absent_faults: ABSENT,
+        },
+        CheckSpec {
+            prop: "C04",
+            engine: "E2-reuse-history",
+            runs_quick: 20_000,
+            runs_thorough: 1_500_000,
+            run: e2::run_c04,
+            rule: "same history engine as C10 weighted towards simplification chains (depth <= 6): traces come from VM/JIT point and interval evaluators run with reused evaluator objects, children are produced with reused workspaces, recycled storage, other register budgets and through RenderHandle's trace-keyed cache; after every simplification parent and child are compared bit for bit at the traced point or at 6 points of the traced box under point, float-slice and grad-slice evaluation with fresh evaluators. distinct_nontrivial = distinct history signatures among runs with at least one reuse fault kind",
+            assumptions: &[
+                "the for-all-programs part is sampled by the random DAG generator; the simulator's contribution is the history",
+                "interval evaluation of degenerate sub-boxes is not compared (the statement speaks about points of the box)",
             ],
             real_components: REAL,
             stub_components: STUB,
